@@ -270,6 +270,10 @@ class ExprMixin:
             return SNum(q if isinstance(op, ast.FloorDiv) else r, True)
         if isinstance(op, ast.Pow) and both_int and isinstance(a, int) and a == 2:
             raise Unsupported("2 ** symbolic (use contract-level case split)")
+        if isinstance(op, ast.LShift) and both_int and isinstance(b, int) and not isinstance(b, bool):
+            if b < 0:
+                raise PyRaise("ValueError", "negative shift count")
+            return SNum(xt * (2 ** b), True)  # Python ints are unbounded: x << c == x * 2**c, also for negative x
         if isinstance(op, ast.LShift) and both_int:
             raise Unsupported("symbolic <<")
         raise Unsupported("arith " + type(op).__name__)
